@@ -112,6 +112,8 @@ fn main() {
                     st.case(&format!("automaton states={} {}", a.nstates, a.body), "ok");
                     st.case("validate", "valid");
                     st.case("enccheck", "same");
+                    // V7: the reduce loop halts from every reachable two-state stack (termination certificate)
+                    st.case("validate3", "valid");
                     if !tables.recovery {
                         // V5 (reachable nonterminals productive, no empty item set) + V6 (start reduce only on EOF):
                         // the extra hypotheses of the C04/C05 sentence-prefix theorems
